@@ -25,9 +25,16 @@
         (leading C,mac ops set the capture state)
       observation: one token per op (- | N | O<yiaddr> | A<yiaddr>), then " | " and the table sorted by client id
         (cid/state/ip/net)
+   sumline <hex text> <hex of sha256hex(text after its first newline) | -> <T|F: yaml.Unmarshal makes the document of the body out of the whole text>
+        the byte-level integrity check of loadByteArray (Model/LeaseBytes.v sum_verdict) on a text whose body is a
+        valid lease document: observation loaded | reset
+   consts      the constants the model hard-codes, against the values read from the Go source (go/parser):
+        checksum key, temp-file suffix, StateFree/Discover/Allocated, StageNormal/Redirected, default lease
+        duration (ns), the netfilter DNS server
    save <lease>*|-   (the in-memory table, any state; a single - for the empty table)
       observation: the lease records of the written document, sorted by client id *)
 From PV Require Import Base.Text Model.LeaseBase Model.Lease Model.LeaseKnown Model.LeaseServe.
+From PV Require Import Model.LeaseBytes.
 From PV Require Model.DHCP Model.DHCPShow.
 Open Scope string_scope.
 Open Scope N_scope.
@@ -272,6 +279,26 @@ Definition cont (args : list string) : string :=
   | _ => BADARGS
   end.
 
+(* ---------------- bytes ---------------- *)
+Definition string_of_bytes (b : bytes) : string :=
+  fold_right (fun x acc => String (ascii_of_N x) acc) EmptyString b.
+
+Definition sumline (args : list string) : string :=
+  match args with
+  | [t; h; y] =>
+      match bytes_of_tok t, bytes_of_tok h, bool_of_tok y with
+      | Some text, Some hash, Some yaml_ok =>
+          let v := sum_verdict (fun _ => hash) text in
+          out3 (match v with SumBad => "reset" | _ => if yaml_ok then "loaded" else "reset" end) "-" "-"
+      | _, _, _ => BADARGS
+      end
+  | _ => BADARGS
+  end.
+
+Definition consts_line : string :=
+  string_of_bytes sum_key ++ "|" ++ string_of_bytes tmp_suffix ++ "|0,1,2|1,3|" ++ dec_of_Z four_hours ++ "|" ++
+  show_addr cloudflare_family1.
+
 (* ---------------- dispatch ---------------- *)
 Definition input_of_args (a : list string) : option input :=
   match a with
@@ -316,6 +343,8 @@ Definition dispatch (kind : string) (args : list string) : string :=
     end
   else if String.eqb kind "renew" || String.eqb kind "offer" then serve kind args
   else if String.eqb kind "cont" then cont args
+  else if String.eqb kind "sumline" then sumline args
+  else if String.eqb kind "consts" then out3 consts_line "-" "-"
   else if String.eqb kind "save" then
     match all_some (map rec_of_tok (filter (fun a => negb (String.eqb a "-")) args)) with
     | Some rs => out3 (show_list (map show_rec (sort_by r_cid (save_leases (map lease_of_rec rs))))) "-" "-"
